@@ -160,7 +160,9 @@ deriving DecidableEq, Repr
 inductive Ev
   | get (rid : Nat) (s : Spec)                       -- a stream yields GetHttpConnection
   | result (cid : Nat) (r : Res)                     -- the pending connection attempt of `cid` finished
-  | setState (t : Target) (r w : Bool)               -- Connection.state changes (peer close, our close, ...)
+  | setState (t : Target) (r w : Bool)               -- Connection.state changes not modelled below (teardown, tunnels)
+  | peerClose (t : Target)                           -- the server sends FIN on an established connection
+  | responseDone (t : Target) (closeHdr : Bool)      -- the HTTP/1 exchange on the connection is complete
   | setError (t : Target)                            -- Server.error set on an established / context connection
   | poke (t : Target) (f : Field)                    -- an addon assigns server.address / server.via
 deriving DecidableEq, Repr
@@ -184,6 +186,13 @@ def step (p : Pool) : Ev → Pool × List Out × Note
   | .get rid s => let r := getConn p true rid s; (r.1, r.2, .none)
   | .result cid res => let r := register p cid res; (r.1, r.2, .none)
   | .setState t r w => (p.updTarget t (fun c => { c with canRead := r, canWrite := w }), [], .none)
+  | .peerClose t =>
+    -- Http1Client on ConnectionClosed: `if conn.state & CAN_WRITE: yield CloseConnection(conn)` — the connection ends
+    -- fully closed; a connection that cannot be read (pending, closed) does not deliver the event
+    (p.updTarget t (fun c => if c.canRead then { c with canRead := false, canWrite := false } else c), [], .none)
+  | .responseDone t closeHdr =>
+    -- Http1Connection.mark_done: connection_done if `Connection: close` or the request came over HTTP/2 or HTTP/3
+    (p.updTarget t (fun c => if closeHdr || p.clientH2 then { c with canRead := false, canWrite := false } else c), [], .none)
   | .setError t =>
     -- server.py turns an error set on a pending connection into a failed attempt; elsewhere it is just recorded
     match p.target t with
